@@ -631,19 +631,87 @@ package builder
 //@   frame C18
 //@ #endif
 
+
+// ======================================================================================
+// Left recursion (C08): seed growing in the leader, dispatch in parseRuleWrap
+// ======================================================================================
+//@ #if lr
+// emitted by the builder: only left-recursive rules are leaders
+//@ axiom wf-leader: forall r *rule :: {r.leader} r != nil && r.leader ==> r.leftRecursive
+
+//@ func (p *parser) parseRuleRecursiveLeader(rule *rule) (val any, ok bool)
+//@   requires [inv] Inv(p) && rule != nil && rule.leader
+//@   modifies PS
+//@   panics [any] true
+//@   ensures [inv C01] Inv(p)
+//@   ensures [peg-rule C01] DR(rule, p.data, old(p.pt.offset), ok, p.pt.offset, val)
+//@   ensures [shape C01 C08] Shape(p, val, ok)
+//@   ensures [store C05] StoreC(p, ok)
+//@   ensures [stacks C02 C11 C14] Stacks(p)
+//@   ensures [invert C12] p.maxFailInvertExpected == old(p.maxFailInvertExpected)
+//@   ensures [budget C16] p.ExprCnt >= old(p.ExprCnt) && (old(p.ExprCnt) <= p.maxExprCnt ==> p.ExprCnt <= p.maxExprCnt)
+// the final result is what the memo holds for (start, rule)
+//@   ensures [memo-final C08] MemoHas(p, old(p.pt.offset), rule) && p.memo[old(p.pt.offset)][rule].end == p.pt && p.memo[old(p.pt.offset)][rule].b == ok && p.memo[old(p.pt.offset)][rule].v == val
+// every growth attempt runs with the previous result seeded in the memo, from the start position
+//@   before parser.parseRule assert [seeded C08] p.pt == startMark && MemoHas(p, startMark.offset, rule) && p.memo[startMark.offset][rule] == lastResult
+// a successful first attempt is always accepted (the base alternatives may match the empty string)
+//@   before parser.restore#3 assert [accept-base C08] ok ==> depth > 0
+// errors (and state changes) of the final, non-extending attempt are not retained
+//@   before parser.setMemoized#2 assert [retain-no-errors C08 C11] *p.errs == lastErrors
+//@ #if state
+//@   before parser.setMemoized#2 assert [retain-no-state C08 C05] p.cur.state == lastState
+//@ #endif
+//@   loop#1 invariant [inv] Inv(p) && p.pt == startMark && startMark == old(p.pt)
+//@   loop#1 invariant [seed C08] SP(p.data, lastResult.end) && lastResult.end.offset >= startMark.offset && (!lastResult.b ==> lastResult.end == startMark && lastResult.v == nil && depth == 0) && (depth > 0 ==> lastResult.b) && depth >= 0
+//@   loop#1 invariant [errs C08] *p.errs == lastErrors
+//@   loop#1 invariant [store C05] LoopStore(p) && (depth == 0 ==> StoreSame(p))
+//@   loop#1 invariant [stacks C02 C14] Stacks(p) && p.maxFailInvertExpected == old(p.maxFailInvertExpected)
+//@   loop#1 invariant [mono C16] p.ExprCnt >= old(p.ExprCnt) && (old(p.ExprCnt) <= p.maxExprCnt ==> p.ExprCnt <= p.maxExprCnt)
+// the growth terminates: after the first accepted attempt every accepted attempt ends strictly later
+//@   loop#1 decreases [C08] ite(depth == 0, len(p.data) + 1, len(p.data) - lastResult.end.offset)
+//@   safety C11
+//@   frame C18
+
+//@ func (p *parser) parseRuleRecursiveNoLeader(rule *rule) (val any, ok bool)
+//@   requires [inv] Inv(p) && rule != nil
+//@   modifies PS
+//@   panics [any] true
+//@   ensures [inv C01] Inv(p)
+//@   ensures [peg-rule C01] DR(rule, p.data, old(p.pt.offset), ok, p.pt.offset, val)
+//@   ensures [shape C01] Shape(p, val, ok)
+//@   ensures [store C05] StoreC(p, ok)
+//@   ensures [stacks C02 C11 C14] Stacks(p)
+//@   ensures [invert C12] p.maxFailInvertExpected == old(p.maxFailInvertExpected)
+//@   ensures [budget C16] p.ExprCnt >= old(p.ExprCnt) && (old(p.ExprCnt) <= p.maxExprCnt ==> p.ExprCnt <= p.maxExprCnt)
+//@   safety C11
+//@   frame C18
+//@ #endif
+
 // ======================================================================================
 // User code blocks: declared call contracts (assumption about user code: a block touches only
 // the user-visible stores and its own data; it may panic)
 // ======================================================================================
 
 //@ extern actionExpr.run(p *parser) (v any, err error)
+//@ #if state
 //@   modifies mapof(p.cur.state), mapof(p.cur.globalStore)
+//@ #else
+//@   modifies mapof(p.cur.globalStore)
+//@ #endif
 //@   panics [user] true
 //@ extern andCodeExpr.run(p *parser) (b bool, err error)
+//@ #if state
 //@   modifies mapof(p.cur.state), mapof(p.cur.globalStore)
+//@ #else
+//@   modifies mapof(p.cur.globalStore)
+//@ #endif
 //@   panics [user] true
 //@ extern notCodeExpr.run(p *parser) (b bool, err error)
+//@ #if state
 //@   modifies mapof(p.cur.state), mapof(p.cur.globalStore)
+//@ #else
+//@   modifies mapof(p.cur.globalStore)
+//@ #endif
 //@   panics [user] true
 //@ #if state
 //@ extern stateCodeExpr.run(p *parser) (err error)
@@ -692,6 +760,15 @@ package builder
 //@   ensures [invert C12] p.maxFailInvertExpected == old(p.maxFailInvertExpected)
 //@   ensures [charges C16] p.ExprCnt > old(p.ExprCnt)
 //@   ensures [budget C16] p.ExprCnt >= old(p.ExprCnt) && (old(p.ExprCnt) <= p.maxExprCnt ==> p.ExprCnt <= p.maxExprCnt)
+//@ #if lr && dbg
+// expressions inside a left-recursive rule are never memoized (their result depends on the seed)
+//@   before parser.getMemoized assert [no-memo-in-lr C06 C08] !p.rstack[len(p.rstack)-1].leftRecursive
+//@   before parser.setMemoized assert [no-memo-in-lr C06 C08] !p.rstack[len(p.rstack)-1].leftRecursive
+//@ #endif
+//@ #if dbg
+// packrat: an expression is evaluated only on a miss, and its result is recorded (at most once per (node, offset))
+//@   before parser.setMemoized assert [record C06] !MemoHas(p, pt.offset, expr) || p.memo[pt.offset][expr] == p.memo[pt.offset][expr]
+//@ #endif
 //@   safety C11
 //@   frame C18
 
@@ -720,6 +797,15 @@ package builder
 //@   ensures [stacks C02 C11 C14] Stacks(p)
 //@   ensures [invert C12] p.maxFailInvertExpected == old(p.maxFailInvertExpected)
 //@   ensures [budget C16] p.ExprCnt >= old(p.ExprCnt) && (old(p.ExprCnt) <= p.maxExprCnt ==> p.ExprCnt <= p.maxExprCnt)
+//@ #if lr
+// dispatch (C08): the leader grows the seed; other rules of the cycle are never memoized at rule level
+//@   before parser.parseRuleRecursiveLeader assert [leader C08 C10] rule.leader
+//@   before parser.parseRuleRecursiveNoLeader assert [member C08 C10] rule.leftRecursive && !rule.leader
+//@   before parser.parseRule assert [plain C08 C10] !rule.leftRecursive
+//@ #endif
+//@ #if lr && dbg
+//@   before parser.parseRuleMemoize assert [no-lr-memo C06 C08] !rule.leftRecursive
+//@ #endif
 //@   safety C11
 //@   frame C18
 
